@@ -616,6 +616,38 @@ func ruleSearchComplete(w *World, r *Report, rule string) {
 // isVisitedTest: the condition only consults traversal bookkeeping - a local
 // map[NodeKey]bool (whatever its name) or a bool field of Node.
 func isVisitedTest(info *types.Info, cond ast.Expr) bool {
+	// `_, done := visited[k]; done` - membership in a local set keyed by node key
+	if c := unparen(cond); c != nil {
+		if u, isU := c.(*ast.UnaryExpr); isU && u.Op == token.NOT {
+			c = unparen(u.X)
+		}
+		if id, isId := c.(*ast.Ident); isId && theWorld != nil {
+			if o := info.Uses[id]; o != nil {
+				if fi := theWorld.FuncAt(o.Pos()); fi != nil {
+					found := false
+					ast.Inspect(fi.Decl.Body, func(n ast.Node) bool {
+						as, isAs := n.(*ast.AssignStmt)
+						if !isAs || len(as.Lhs) != 2 || len(as.Rhs) != 1 || objOf(info, as.Lhs[1]) != o {
+							return true
+						}
+						if ix, isIx := unparen(as.Rhs[0]).(*ast.IndexExpr); isIx {
+							if tv, has := info.Types[ix.X]; has {
+								if m, isMap := tv.Type.Underlying().(*types.Map); isMap && isNamedType(m.Key(), modPath+"/internal/graph", "NodeKey") {
+									if _, isLocal := objOf(info, ix.X).(*types.Var); isLocal && fieldOf(info, ix.X) == nil {
+										found = true
+									}
+								}
+							}
+						}
+						return true
+					})
+					if found {
+						return true
+					}
+				}
+			}
+		}
+	}
 	ok := false
 	bad := false
 	ast.Inspect(cond, func(n ast.Node) bool {
